@@ -172,7 +172,10 @@ func ConcretizeNum(n J, rep int) cty.Value {
 		if !ok2 {
 			panic("bad dec " + asS(d))
 		}
-		// the same decimal at several precisions (these are in general different numbers)
+		// the same decimal at several precisions (these are in general different numbers); "rep" in the abstract value pins one
+		if fr, ok := n["rep"]; ok {
+			rep = asI(fr)
+		}
 		switch rep % 6 {
 		case 4: // the float64 nearest to the decimal, carried at 512 bits (what arithmetic with a high-precision operand produces)
 			g := new(big.Float).SetPrec(53).SetRat(r)
